@@ -147,8 +147,36 @@ func (cfg *LifeCfg) genSize(t *rapid.T) uint64 {
 	case 1:
 		return uint64(rapid.SampledFrom([]int{999_999, 1_000_000, 1_000_001, 2_500_000}).Draw(t, "size"))
 	default:
-		return rapid.Uint64Range(cfg.MinSize, cfg.MaxSize).Draw(t, "size")
+		// rapid biases integer ranges towards small values: draw the magnitude explicitly
+		mag := rapid.IntRange(3, 7).Draw(t, "sizeMag")
+		v := uint64(rapid.IntRange(10, 99).Draw(t, "sizeMant"))
+		for i := 1; i < mag; i++ {
+			v *= 10
+		}
+		v += uint64(rapid.IntRange(0, 9).Draw(t, "sizeLow"))
+		if v > cfg.MaxSize {
+			v = cfg.MaxSize
+		}
+		if v < cfg.MinSize {
+			v = cfg.MinSize
+		}
+		return v
 	}
+}
+
+// GenKeepAlive: every provider re-announces itself (real nodes do so periodically; after
+// OfflineTriggerHeight blocks without it the end-blocker marks them offline).
+func (cfg *LifeCfg) GenKeepAlive(t *rapid.T, s *Sim) *Action {
+	var last *Action
+	for _, p := range cfg.Providers {
+		a := NewAction("node_reset", p)
+		a.Status = StatusFull
+		if last != nil {
+			s.Do(last)
+		}
+		last = a
+	}
+	return last
 }
 
 func (cfg *LifeCfg) genDur(t *rapid.T) uint64 {
@@ -361,6 +389,10 @@ func (cfg *LifeCfg) GenRenew(t *rapid.T, s *Sim) *Action {
 	}
 	a.Data = append([]string{}, ids[:n]...)
 	a.Duration = cfg.genDur(t)
+	if rapid.Bool().Draw(t, "longer") {
+		// longer than the current period: a collateral top-up is due
+		a.Duration = rapid.Uint64Range(cfg.MaxDur, 3*cfg.MaxDur).Draw(t, "longDur")
+	}
 	a.Timeout = 10
 	if cfg.NoRenewTopUp {
 		// collateral is ceil(1e-7*size*duration): keep the renewal no longer than the
@@ -566,6 +598,18 @@ func (cfg *LifeCfg) GenVstorage(t *rapid.T, s *Sim) *Action {
 // GenBankDrain moves most of a provider's balance away (so that collateral cannot be afforded) or back.
 func (cfg *LifeCfg) GenBankDrain(t *rapid.T, s *Sim) *Action {
 	p := rapid.SampledFrom(cfg.Providers).Draw(t, "sp")
+	// prefer a provider that holds a stored shard or is the target of a pending migration
+	var holders []int
+	for _, sh := range sortedShards(s.Last) {
+		if sh.Status == ordertypes.ShardCompleted || sh.Status == ordertypes.ShardMigrating {
+			if i := s.acctOf(sh.Sp); i >= 0 {
+				holders = append(holders, i)
+			}
+		}
+	}
+	if len(holders) > 0 && rapid.IntRange(0, 3).Draw(t, "holder") > 0 {
+		p = holders[rapid.IntRange(0, len(holders)-1).Draw(t, "holderIdx")]
+	}
 	a := NewAction("bank_send", p)
 	a.Target = 11
 	bal := s.Last.Bal[s.bech(p)]
@@ -591,5 +635,46 @@ func (cfg *LifeCfg) GenResetNode(t *rapid.T, s *Sim) *Action {
 	p := rapid.SampledFrom(cfg.Providers).Draw(t, "sp")
 	a := NewAction("node_reset", p)
 	a.Status = rapid.SampledFrom([]uint32{StatusFull, StatusFull, StatusFull &^ nodetypes.NODE_STATUS_ACCEPT_ORDER, StatusFull &^ nodetypes.NODE_STATUS_SERVE_STORAGE, nodetypes.NODE_STATUS_ONLINE, StatusFull | nodetypes.NODE_STATUS_SERVE_INDEXING}).Draw(t, "status")
+	return a
+}
+
+// GenDebtCombo aims at collateral debt: drain a provider that holds a stored shard,
+// then renew that model for longer than its current period (top-up it cannot afford).
+// The drain is executed here, the renewal is returned.
+func (cfg *LifeCfg) GenDebtCombo(t *rapid.T, s *Sim) *Action {
+	var cands []ordertypes.Shard
+	for _, sh := range sortedShards(s.Last) {
+		if sh.Status == ordertypes.ShardCompleted {
+			if o, ok := s.Last.Orders[sh.OrderId]; ok {
+				if m, ok := s.Last.Metas[o.DataId]; ok && m.Status == modeltypes.MetaComplete && m.OrderId == o.Id {
+					cands = append(cands, sh)
+				}
+			}
+		}
+	}
+	if len(cands) == 0 {
+		return nil
+	}
+	sh := cands[rapid.IntRange(0, len(cands)-1).Draw(t, "debtShard")]
+	p := s.acctOf(sh.Sp)
+	bal := s.Last.Bal[sh.Sp]
+	keep := rapid.Int64Range(0, 3).Draw(t, "keep")
+	if p >= 0 && bal.IsPositive() && bal.Int64() > keep {
+		d := NewAction("bank_send", p)
+		d.Target = 11
+		d.Amount = bal.Int64() - keep
+		s.Do(d)
+	}
+	o := s.Last.Orders[sh.OrderId]
+	m := s.Last.Metas[o.DataId]
+	gw := rapid.SampledFrom(cfg.Providers).Draw(t, "gateway")
+	a := NewAction("renew", gw)
+	a.Owner = s.didIdx(m.Owner)
+	if a.Owner < 0 {
+		return nil
+	}
+	a.Data = []string{m.DataId}
+	a.Duration = rapid.Uint64Range(sh.Duration+1000, sh.Duration+3*cfg.MaxDur).Draw(t, "longDur")
+	a.Timeout = 10
 	return a
 }
